@@ -36,9 +36,9 @@ pub fn c12_def() -> PropDef {
     PropDef {
         id: "C12",
         level: "exploration",
-        rule: "proptest cfg (committee 4..7, stake profile incl. one dominant peer / dominant node, batch parameters, scheduler seed) + tape -> the real Mempool::spawn with harness-played peers; 1..5 own batches are produced by client transactions; per (peer, received batch frame) the tape decides: acknowledge at once / after 1..300 ms / never. Oracle: an own batch b is released (written to the node's store under its digest and its digest handed to consensus) at log position T only if stake(node) + sum of stake of the peers whose acknowledgement for b (FIFO pairing per connection: k-th reply frame <-> k-th frame sent on that connection) was delivered to the node before T reaches floor(2N/3)+1. The converse (released once enough acknowledgements arrived) is measured for non-vacuity, not asserted. Non-trivial: a batch was withheld for a positive time while a sub-quorum set of acknowledgements was outstanding, or was never released because a quorum never acknowledged; distinct by (stakes, ack plan) hash.",
+        rule: "proptest cfg (committee 4..7, stake profile incl. one dominant peer / dominant node, batch parameters, scheduler seed) + tape -> the real Mempool::spawn with harness-played peers; 1..5 own batches are produced by client transactions; per (peer, received batch frame) the tape decides: acknowledge at once / after 1..300 ms / never; 0..2 connections between the node and a peer are reset at tape-chosen instants (the reliable sender reconnects and retransmits). Oracle: an own batch b is released (written to the node's store under its digest and its digest handed to consensus) at log position T only if stake(node) + sum of stake of the peers whose acknowledgement for b (FIFO pairing per connection: k-th reply frame <-> k-th frame sent on that connection) was delivered to the node before T reaches floor(2N/3)+1. The converse (released once enough acknowledgements arrived) is measured for non-vacuity, not asserted. Non-trivial: a batch was withheld for a positive time while a sub-quorum set of acknowledgements was outstanding, or was never released because a quorum never acknowledged; distinct by (stakes, ack plan) hash.",
         assumptions: &[
-            "connections are not cut in this part (retransmission is C14's domain), so FIFO pairing per connection is exact",
+            "FIFO pairing of replies is per connection (k-th reply frame on a connection answers the k-th frame written on it); a reset loses the frames in flight on that connection",
         ],
         parts: vec![
             Part { name: "quorum-wait", cfg_len: CFG_LEN, tape_max: 160, quick: 30_000, thorough: 800_000, max_shrink_iters: 300, run: c12_run },
@@ -74,6 +74,8 @@ struct MpPlan {
     received: Vec<(usize, Vec<u8>, usize)>,
     /// per peer, per frame index: ack plan
     acks: HashMap<(usize, usize), AckPlan>,
+    /// connections of the node to a peer's mempool port that are reset at the given instant (ms)
+    cuts: Vec<(usize, u64)>,
     horizon_ms: u64,
 }
 
@@ -86,6 +88,7 @@ fn run_mempool(w: &World, sut: usize, batch_size: usize, max_batch_delay: u64, r
     let txs = plan.txs.clone();
     let received = plan.received.clone();
     let horizon = plan.horizon_ms;
+    let cuts = plan.cuts.clone();
     let sut_id = sut as u32 + 1;
     let script: Vec<Value> = Vec::new();
     sim::run_sim(rt_seed ^ 0x3e3e, || async {
@@ -167,6 +170,13 @@ fn run_mempool(w: &World, sut: usize, batch_size: usize, max_batch_delay: u64, r
                 log(Ev::Digest { node: sut_id, digest: d.to_vec() });
             }
         });
+        for (peer, at) in cuts.clone() {
+            tokio::spawn(async move {
+                tokio::time::sleep(ms(at)).await;
+                let port = MEMPOOL_PORT + peer as u16;
+                simnet::cut_where(|_, src, p| src == sut_id && p == port);
+            });
+        }
         tokio::time::sleep(ms(2)).await;
         // clients
         let mut clients: HashMap<usize, Framed<TcpStream, LengthDelimitedCodec>> = HashMap::new();
@@ -326,7 +336,7 @@ fn c11_run(case: &Case, _ctx: &Ctx) -> Outcome {
         }
         received.push((peer, frame, t.below(ntx)));
     }
-    let plan = MpPlan { txs, received, acks: HashMap::new(), horizon_ms: 2 * delay + 20 };
+    let plan = MpPlan { txs, received, acks: HashMap::new(), cuts: Vec::new(), horizon_ms: 2 * delay + 20 };
     let run = run_mempool(&w, sut, batch_size, delay, rt_seed, plan);
     let mut out = Outcome::default();
     let sut_id = sut as u32 + 1;
@@ -552,7 +562,18 @@ fn c12_run(case: &Case, _ctx: &Ctx) -> Outcome {
         let gap = if k == 0 { 0 } else { t.range(0, 100_000) };
         txs.push((0usize, tx, gap));
     }
-    let plan = MpPlan { txs, received: Vec::new(), acks, horizon_ms: 700 };
+    // connection resets between the node and some peers while batches are in flight: the reliable
+    // sender reconnects (200 ms back-off) and retransmits what was not acknowledged
+    let mut cuts = Vec::new();
+    let ncuts = t.weighted(&[3, 2, 1]);
+    for _ in 0..ncuts {
+        let peer = *t.pick(&peers);
+        let at = t.range(1, 400);
+        plan_json.push(json!({"cut_connection_to_peer": peer, "at_ms": at}));
+        cuts.push((peer, at));
+    }
+    let had_cuts = !cuts.is_empty();
+    let plan = MpPlan { txs, received: Vec::new(), acks, cuts, horizon_ms: 1_200 };
     let run = run_mempool(&w, sut, batch_size, delay, rt_seed, plan);
     let mut out = Outcome::default();
     let sut_id = sut as u32 + 1;
@@ -564,23 +585,26 @@ fn c12_run(case: &Case, _ctx: &Ctx) -> Outcome {
         out.class("skipped:node-panicked");
         return out;
     }
-    // per peer: the order in which batch frames were written to it, and the instants at which reply
-    // frames were delivered back to the node on that connection
-    let mut sent_order: HashMap<u32, Vec<Vec<u8>>> = HashMap::new();
-    let mut acks_delivered: HashMap<u32, Vec<u64>> = HashMap::new(); // log seq of each delivered reply
+    // per connection: the order in which batch frames were written on it, and the log positions at
+    // which reply frames were delivered back to the node on it (FIFO pairing is per connection; after a
+    // reset the reliable sender retransmits on a new connection)
+    let mut sent_order: HashMap<u64, (u32, Vec<Vec<u8>>)> = HashMap::new(); // conn -> (peer, frames)
+    let mut acks_delivered: HashMap<u64, Vec<u64>> = HashMap::new(); // conn -> log seq of each delivered reply
     let mut batches_in_order: Vec<Vec<u8>> = Vec::new();
     for e in &run.log {
         match &e.ev {
-            Ev::Sent { info, bytes, .. } if info.writer_node == sut_id && info.forward && port_kind(info.dst_port) == PortKind::Mempool => {
+            Ev::Sent { info, bytes, dropped } if info.writer_node == sut_id && info.forward && port_kind(info.dst_port) == PortKind::Mempool => {
                 if decode_batch(bytes).is_some() {
-                    sent_order.entry(node_of_port(info.dst_port)).or_default().push(bytes.to_vec());
+                    if !*dropped {
+                        sent_order.entry(info.conn).or_insert_with(|| (node_of_port(info.dst_port), Vec::new())).1.push(bytes.to_vec());
+                    }
                     if !batches_in_order.contains(&bytes.to_vec()) {
                         batches_in_order.push(bytes.to_vec());
                     }
                 }
             }
             Ev::Delivered { info, .. } if !info.forward && info.src_node == sut_id && port_kind(info.dst_port) == PortKind::Mempool => {
-                acks_delivered.entry(node_of_port(info.dst_port)).or_default().push(e.seq);
+                acks_delivered.entry(info.conn).or_default().push(e.seq);
             }
             _ => {}
         }
@@ -603,12 +627,12 @@ fn c12_run(case: &Case, _ctx: &Ctx) -> Outcome {
             let mut s = own;
             for p in &peers {
                 let id = *p as u32 + 1;
-                let idx = sent_order.get(&id).and_then(|v| v.iter().position(|x| x == b));
-                if let Some(idx) = idx {
-                    let delivered = acks_delivered.get(&id).map_or(0, |v| v.iter().filter(|x| **x < seq).count());
-                    if delivered > idx {
-                        s += stakes[*p] as u64;
-                    }
+                let acked = sent_order.iter().any(|(conn, (peer, frames))| {
+                    *peer == id
+                        && frames.iter().position(|x| x == b).map_or(false, |idx| acks_delivered.get(conn).map_or(0, |v| v.iter().filter(|x| **x < seq).count()) > idx)
+                });
+                if acked {
+                    s += stakes[*p] as u64;
                 }
             }
             s
@@ -639,6 +663,9 @@ fn c12_run(case: &Case, _ctx: &Ctx) -> Outcome {
     // also: the digest channel must not announce an own batch that was never stored (same release point)
     if withheld {
         out.class("withheld-until-quorum");
+    }
+    if had_cuts {
+        out.class("connection-reset-while-batches-in-flight");
     }
     if never_released {
         out.class("never-released");
